@@ -614,6 +614,17 @@ func c11HostileOne(c *vf.Ctx, sub string, i int, in []byte, kind string) {
 			}
 		})
 	})
+	// the same bytes decoded into a zero-value Metadata (the type is an encoding.BinaryUnmarshaler): same verdict
+	if i%4 == 0 {
+		c.Guard(sub, i, wit, func() {
+			var zero metadata.Metadata
+			zerr := zero.UnmarshalBinary(append([]byte(nil), in...))
+			if (zerr == nil) != (err == nil) {
+				c.Fail(sub, i, "zero-value-metadata-decodes-differently", fmt.Sprintf("Default.New(): %v, zero value: %v", err, zerr), wit())
+			}
+			c.Inc("decoded_into_a_zero_value_metadata")
+		})
+	}
 	c.Eval(1)
 	c.Inc("mut_" + strings.SplitN(kind, "+", 2)[0])
 	if alloc > c11AllocBound(len(in)) {
